@@ -40,9 +40,38 @@ def is_err_ctor(n):
     return n.get("k") == "call" and n.get("ctor", "").endswith("Result::Err")
 
 
+def load_fn(facts, name):
+    """The body of strip::write / write_all, without a leading empty-input guard `if buf.is_empty() { return Ok(0) | Ok(()) }`: with
+    no input the scan yields nothing and the function's own tail returns Ok(buf.len()) = Ok(0) / Ok(()), so the guard decides
+    nothing (its exact form is required; anything else stays in place for the rules to judge)."""
+    b = facts.body(CRATE, M + name)
+    h = hir.simp(b["hir"])
+    if not (isinstance(h, dict) and h.get("k") == "block" and h.get("stmts")):
+        return b
+    s0 = hir.simp(h["stmts"][0])
+    if not (s0.get("k") == "if" and "e" not in s0):
+        return b
+    c = hir.simp(s0["c"])
+    empty = (hir.is_call(c, "is_empty") and hir.is_local(hir.peel(c["args"][0]), "buf")) or \
+        (c.get("k") == "bin" and c.get("op") == "Eq" and hir.is_call(hir.simp(c["l"]), "len") and hir.is_local(hir.peel(hir.simp(c["l"])["args"][0]), "buf")
+         and hir.lit_val(c["r"]) == 0)
+    st = [hir.simp(x) for x in hir.stmts_of(s0["t"])]
+    if not (empty and len(st) == 1 and st[0].get("k") == "ret" and "e" in st[0]):
+        return b
+    v = hir.simp(st[0]["e"])
+    if not (v.get("k") == "call" and str(v.get("ctor", "")).endswith("Result::Ok") and len(v["args"]) == 1):
+        return b
+    a = hir.simp(v["args"][0])
+    want_unit = name != "write"
+    ok = (a.get("k") == "tuple" and not a.get("es")) if want_unit else (hir.lit_val(a) == 0 or (hir.is_call(a, "len") and hir.is_local(hir.peel(a["args"][0]), "buf")))
+    if not ok:
+        return b
+    return dict(b, hir=dict(h, stmts=list(h["stmts"][1:])), empty_guard=True)
+
+
 class WriteFn:
     def __init__(self, facts):
-        self.b = facts.body(CRATE, M + "write")
+        self.b = load_fn(facts, "write")
         b = self.b
         names = [p.get("name") for p in b["params"]]
         if names != ["raw", "state", "buf"]:
@@ -367,7 +396,7 @@ def rule_W2(facts, rep):
 
 def rule_W4(facts, rep):
     # write_all: propagate with `?` only, final Ok(())
-    b = facts.body(CRATE, M + "write_all")
+    b = load_fn(facts, "write_all")
     rep.fn(b["path"])
     tries = [n for n in hir.walk(b["hir"]) if n.get("k") == "match" and n.get("src") == "TryDesugar"]
     ok = len(tries) == 1 and hir.is_call(hir.simp(hir.try_inner(tries[0])), "std::io::Write::write_all")
@@ -510,7 +539,7 @@ def rule_through(facts, rep, rule):
     """Everything the strip stream hands to the inner writer went through the scanner that carries the stream's state, on every
     path: no fast path, no second scanner, no early exit before the scan (used by C01 reach, C03 and C06)."""
     for fn, inner in (("write", "std::io::Write::write"), ("write_all", "std::io::Write::write_all")):
-        b = facts.body(CRATE, M + fn)
+        b = load_fn(facts, fn)
         rep.fn(b["path"])
         names = [p.get("name") for p in b["params"]]
         if names != ["raw", "state", "buf"]:
